@@ -34,6 +34,10 @@ class RefLCD:
     def __init__(self) -> None:
         self.chips = [RefChip(), RefChip()]   # 0 = left, 1 = right
 
+    def reset(self) -> None:
+        """Controller reset: both chips back to their power-on state (display off, registers 0, VRAM cleared)."""
+        self.chips = [RefChip(), RefChip()]
+
     def _sel(self, cs: str) -> List[RefChip]:
         return {"both": self.chips, "left": [self.chips[0]], "right": [self.chips[1]]}[cs]
 
